@@ -23,6 +23,7 @@ import (
 	"github.com/mutagen-io/mutagen/pkg/logging"
 	"github.com/mutagen-io/mutagen/pkg/synchronization"
 	"github.com/mutagen-io/mutagen/pkg/synchronization/core"
+	"github.com/mutagen-io/mutagen/pkg/synchronization/core/ignore"
 	"github.com/mutagen-io/mutagen/pkg/synchronization/endpoint/local"
 	"github.com/mutagen-io/mutagen/pkg/synchronization/endpoint/remote"
 	"github.com/mutagen-io/mutagen/pkg/synchronization/rsync"
@@ -209,6 +210,13 @@ func (d *diskState) configure(c *synchronization.Configuration) {
 	c.WatchMode = synchronization.WatchMode_WatchModeForcePoll
 	c.WatchPollingInterval = 1
 	c.Ignores = []string{"*.ign"}
+	if d.h.plan.C("docker_ignores") == 1 {
+		// Docker-style syntax: an ignored directory with an exception deep
+		// inside it (which is never created: nothing beneath "ig" is ever
+		// synchronized), so that the directory is traversed under an ignore mask.
+		c.IgnoreSyntax = ignore.Syntax_SyntaxDocker
+		c.Ignores = []string{"*.ign", "**/*.ign", "ig", "!ig/a/b/keep"}
+	}
 	if d.h.plan.C("internal_staging") == 1 {
 		c.StageMode = synchronization.StageMode_StageModeInternal
 	}
@@ -676,6 +684,10 @@ func (d *diskState) walk(abs, rel string, top bool) *core.Entry {
 	st, err := os.Lstat(abs)
 	if err != nil {
 		return nil
+	}
+	if (rel == "ig" || strings.HasPrefix(rel, "ig/")) && d.h.plan.C("docker_ignores") == 1 {
+		// Ignored wholesale (the harness's own reading of the two patterns).
+		return &core.Entry{Kind: core.EntryKind_Untracked}
 	}
 	switch {
 	case st.Mode().IsDir():
@@ -1214,7 +1226,7 @@ func (e *diskEndpoint) Scan(ctx context.Context, ancestor *core.Entry, full bool
 	// disk (freshAt) and neither the user nor a transition has touched this
 	// side since, every later snapshot must still equal the disk.
 	ref := d.walkTree(e.side)
-	fresh := snapshotMatches(snap.Content, ref)
+	fresh := snapshotMatches(d.comparable(snap.Content), ref)
 	h.mu.Lock()
 	if h.haltWatch && h.haltWatchSide == e.side && h.haltFirstScan == 0 {
 		h.haltFirstScan = 2
@@ -1298,6 +1310,25 @@ func (e *diskEndpoint) Scan(ctx context.Context, ancestor *core.Entry, full bool
 
 // snapshotMatches compares a snapshot with the walker's tree; problematic
 // entries match regardless of their message.
+// comparable is the snapshot as the reference walk would describe it: a
+// directory traversed under an ignore mask without anything trackable in it
+// (Docker-style ignores) is untracked content.
+func (d *diskState) comparable(snapshot *core.Entry) *core.Entry {
+	if d.h.plan.C("docker_ignores") != 1 || snapshot == nil || snapshot.Kind != core.EntryKind_Directory {
+		return snapshot
+	}
+	ig := snapshot.Contents["ig"]
+	if ig == nil || ig.Kind != core.EntryKind_PhantomDirectory {
+		return snapshot
+	}
+	out := &core.Entry{Kind: snapshot.Kind, Contents: map[string]*core.Entry{}}
+	for n, c := range snapshot.Contents {
+		out.Contents[n] = c
+	}
+	out.Contents["ig"] = &core.Entry{Kind: core.EntryKind_Untracked}
+	return out
+}
+
 func snapshotMatches(a, b *core.Entry) bool {
 	if a == nil || b == nil {
 		return a == b
@@ -1387,6 +1418,13 @@ func (e *diskEndpoint) Transition(ctx context.Context, transitions []*core.Chang
 
 func (e *diskEndpoint) transitionInOrder(ctx context.Context, transitions []*core.Change) ([]*core.Entry, []*core.Problem, bool, error) {
 	h, d := e.h, e.h.disk
+	if h.plan.C("docker_ignores") == 1 {
+		for _, t := range transitions {
+			if t.Path == "ig" || strings.HasPrefix(t.Path, "ig/") {
+				h.s.Violate("C03", "change-inside-ignored-directory", "Transition", "a change at %q (%s -> %s) is planned for %s: everything beneath the ignored directory \"ig\" is ignored, the one exception does not exist", t.Path, render(t.Old), render(t.New), e.side)
+			}
+		}
+	}
 	invoked := h.enter(e.side, "transition")
 	h.mu.Lock()
 	h.transInFlight[e.side]++
